@@ -134,7 +134,16 @@ def job_fn(job):
                             else:
                                 edges[i] = EdgeSpec(e.src, e.tgt, val, delay=e.delay, template=e.template, var_map=e.var_map)
     exp = ModelSpec('top_lvl', base.ops, nodes, edges, base.edge_tpls, note=f"grid_search {job['scenario']} rows={rows}")
-    ct = build_python(base)
+    if job.get('inplace_add'):
+        # the template is created with all edges but the last; that edge is then added in place, as add_edges_from_matrix
+        # and update_template(in_place=True) do: the edges that existed before stay addressable by the sweep
+        last = base.edges[-1]
+        less = copy.deepcopy(base)
+        less.edges = list(base.edges[:-1])
+        ct = build_python(less)
+        ct.update_template(edges=[(last.src, last.tgt, None, {'weight': float(last.weight)})], in_place=True)
+    else:
+        ct = build_python(base)
     cap = {}
 
     def stub(self, solver, func, args, T, dt, dts, y0, t0, times, **kw):
@@ -305,6 +314,11 @@ def run(tier='quick', seed=0, only=None, verbose=False):
     for vec in (True, False):
         jobs.append(dict(key=f"grid:with-input:rows=2:same-inputs-dict-twice|vec={vec}", scenario='with-input', rows=2,
                          vectorize=vec, reverse=False, twice=True))
+    for sc in ('edge-weight', 'fan-in'):
+        for vec in (True, False):
+            rows = 3 if sc == 'edge-weight' else 5
+            jobs.append(dict(key=f"grid:{sc}:rows={rows}:edge-added-in-place|vec={vec}", scenario=sc, rows=rows, vectorize=vec,
+                             reverse=False, inplace_add=True))
     for sc in ('node-params', 'edge-weight'):
         for rows in (3,) if tier == 'quick' else (2, 3, 4):
             for vec in (True, False):
